@@ -43,4 +43,4 @@ int mythv_queue_owner(const volatile void * addr, int nworkers) {
 }
 
 /* has this worker been told to leave its scheduling loop? */
-int mythv_exit_requested(int rank) { return g_envs[rank].exit_flag != 0; }
+int mythv_exit_requested(int rank) { return g_envs[rank].exit_flag == 1; }   /* -1 marks worker 0 of myth_init_ex, 0 the others: only 1 is a request */
